@@ -331,6 +331,19 @@ class Interp:
                     env[dest] = ("variant", "Ok", [byte])
                 elif name == "BinaryInput::read_var_u32":
                     env[dest] = ("variant", "Ok", [self.args.get("$r", BV.var("r", "u32"))])
+                elif name == "IntoIterator::into_iter" and isinstance(args[0], tuple) and args[0][0] == "array":
+                    # a loop over a literal array: executed concretely (the path bound keeps it finite)
+                    env[dest] = ("iter", list(args[0][1]), 0)
+                elif name == "IntoIterator::into_iter" and isinstance(args[0], tuple) and args[0][0] == "iter":
+                    env[dest] = args[0]
+                elif name == "Iterator::next" and isinstance(args[0], tuple) and args[0][0] == "ref" and \
+                        isinstance(env.get(args[0][1]), tuple) and env[args[0][1]][0] == "iter":
+                    _, items, idx = env[args[0][1]]
+                    if idx < len(items):
+                        env[args[0][1]] = ("iter", items, idx + 1)
+                        env[dest] = ("variant", "Some", [items[idx]])
+                    else:
+                        env[dest] = ("variant", "None", [])
                 elif info["key"].endswith("Try>::branch"):
                     a = args[0]
                     if not (isinstance(a, tuple) and a[0] == "variant"):
@@ -347,7 +360,8 @@ class Interp:
                 tmap = dict((int(a), b2) for a, b2 in t["targets"])
                 if isinstance(op, tuple) and op[0] == "discr":
                     v = op[1]
-                    idx = {"Ok": 0, "Continue": 0, "Err": 1, "Break": 1}.get(v[1]) if isinstance(v, tuple) and v[0] == "variant" else None
+                    idx = {"Ok": 0, "Continue": 0, "Err": 1, "Break": 1, "None": 0, "Some": 1}.get(v[1]) \
+                        if isinstance(v, tuple) and v[0] == "variant" else None
                     if idx is None:
                         raise Unsupported("switch on discriminant of %r" % (v,))
                     bb = tmap.get(idx, t["otherwise"])
